@@ -50,6 +50,12 @@ Definition resp_matches (r : response) (present : bool) (status : Z) (e : option
   Bool.eqb (r_result r) result &&
   ebind_eqb (r_error r) eb.
 
+(* iterations that logged nothing (possible only for a last iteration that failed in the built-in
+   request chain with no user middleware registered) are not observable: dropped on both sides *)
+Definition nonempty (l : list event) : bool := match l with [] => false | _ => true end.
+Definition logs_eqb (a b : list (list event)) : bool :=
+  list_eqb (list_eqb event_eqb) (filter nonempty a) (filter nonempty b).
+
 Definition c18_check (c : c18_case) : bool :=
   match c with
   | ClassCase s st => default_result_state s =? st
@@ -57,7 +63,7 @@ Definition c18_check (c : c18_case) : bool :=
       match run Fixed p with
       | OutOfFuel => false
       | Panicked e ls h =>
-          o_panic o && opt_z_eqb (Some e) (o_ret_err o) && list_eqb (list_eqb event_eqb) ls (o_logs o) && Nat.eqb h (o_hooks o)
+          o_panic o && opt_z_eqb (Some e) (o_ret_err o) && logs_eqb ls (o_logs o) && Nat.eqb h (o_hooks o)
       | Returned ro e ls h =>
           negb (o_panic o) &&
           match ro with
@@ -67,6 +73,6 @@ Definition c18_check (c : c18_case) : bool :=
               resp_matches r (o_present o) (o_status o) (o_resp_err o) (o_cached o) (o_result o) (o_error o)
           end &&
           opt_z_eqb e (o_ret_err o) &&
-          list_eqb (list_eqb event_eqb) ls (o_logs o) && Nat.eqb h (o_hooks o)
+          logs_eqb ls (o_logs o) && Nat.eqb h (o_hooks o)
       end
   end.
